@@ -141,7 +141,36 @@ def run(chk, prog):
             elif isinstance(x_, _ast.Attribute) and isinstance(x_.value, _ast.Name) and x_.value.id == "self":
                 rw_fn = CT.methods.get(x_.attr)
         if rw_fn is None:
-            raise AnalysisError(f"ChangeTarget.{meth}: no vmap(<reweighting function>)(keys, particles, weights) found")
+            # no single per-particle function: the reweighting may be done on the whole batch (vmapped stages, then array arithmetic).  Decided on the evaluated
+            # method instead: the weights handed to the resulting ParticleCollection, read per particle (Stack[b] -> b, a batched array X -> its element)
+            rr_ = Evaluator(prog).eval_fn(fn, CT.module, CT)
+            W_ = rr_.ret[2][1] if is_t(rr_.ret, "ctor") and rr_.ret[1] == "ParticleCollection" and len(rr_.ret[2]) >= 2 else None
+
+            def unbatch(t_):
+                if is_t(t_, "stack"):
+                    return t_[1]
+                if is_t(t_, "bin") and t_[1] in ("+", "-"):
+                    return ("bin", t_[1], unbatch(t_[2]), unbatch(t_[3]))
+                if is_t(t_, "un") and t_[1] == "-":
+                    return ("un", "-", unbatch(t_[2]))
+                return ("elem", t_)
+            if W_ is None:
+                raise AnalysisError(f"ChangeTarget.{meth}: no vmap(<reweighting function>)(keys, particles, weights) found and the method does not end in ParticleCollection(particles, weights, ..)")
+            form = lin(unbatch(W_))
+            colls = [x for x in mcalls(rr_.ret, "run_smc" if meth == "run_smc" else "run_csmc") if x[1][1] == ("attr", SELF, "prev")]
+            imps = [x for x in mcalls(W_, "importance") if x[1][1] == ("attr", SELF, "target")]
+            okf = len(colls) >= 1 and len(imps) == 1 and len(imps[0][2]) == 2 and is_t(imps[0][2][0], "elem")
+            if okf:
+                coll0 = colls[0]
+                part = ("elem", ("call", ("attr", coll0, "get_particles"), (), ()))
+                wt = ("elem", ("call", ("attr", coll0, "get_log_weights"), (), ()))
+                lat = ("call", ("attr", ("call", ("attr", ("attr", SELF, "prev"), "get_final_target"), (), ()), "filter_to_unconstrained"), (("call", ("attr", part, "get_choices"), (), ()),), ())
+                imp = ("call", ("attr", ("attr", SELF, "target"), "importance"), (imps[0][2][0], lat), ())
+                want = {frozenset([mk_proj(imp, 1)]): 1, frozenset([("call", ("attr", part, "get_score"), (), ())]): -1, frozenset([wt]): 1}
+                okf = form == want
+            chk.require(okf, "WEIGHT-INF", f"ChangeTarget.{meth}._reweight", "reweight by the ratio of new to old target densities", derived=show_lin(form)[:300],
+                        expected="per particle: +new_target.importance(key_i, unconstrained latents of the old target)[1] - particle_i.get_score() + old weight_i", where=f"{CT.module.rel}:{fn.lineno}")
+            continue
         ev = Evaluator(prog)
         rr = ev.eval_fn(rw_fn, CT.module, CT, env0={"self": SELF})
         where = f"{CT.module.rel}:{rw_fn.lineno}"
